@@ -115,10 +115,11 @@ def explore(module, cfg, rec, name):
     return r.json_prints("REPORT"), r.distinct
 
 
-def run(tier, rep):
+def run(tier, rep, only=None, floor=5):
+    """only: prefix of the program identities to take (C08 takes the spawned closures in value position)"""
     build_harness()
-    progs = programs(tier)
-    cases = tv.prepare_cases(progs, workdir("c09go"))
+    progs = [m for m in programs(tier) if only is None or m["ident"].startswith(only)]
+    cases = tv.prepare_cases(progs, workdir("c09go" if only is None else "c09go-sub"))
     answers = gv_parallel("compile", [{"id": c["id"], "path": c["path"]} for c in cases])
     checked = 0
     states = 0
@@ -155,5 +156,5 @@ def run(tier, rep):
     rep.coverage["go_schedules_checked"] = checked
     rep.coverage["go_programs"] = summary
     rep.coverage["go_states"] = states
-    if checked < 5:
+    if checked < floor:
         raise ToolError(f"vacuity: only {checked} go programs compared")
